@@ -402,7 +402,7 @@ func alternatives(w *World, v ssa.Value, at *ssa.BasicBlock) []Src {
 				}
 			}
 		}
-		out = append(out, Src{"leaf", v, at})
+		out = append(out, Src{Kind: "leaf", V: v, At: at})
 	}
 	walk(v, at)
 	return out
